@@ -69,6 +69,30 @@ def run(scn, kind, loop):
     mocker.start()
     ev = []
     tag = [0]
+    # re-entrant callbacks (variant by content): while it answers, a callback patch uses the mocker itself - a replace() at an
+    # index nothing is at (fails, changes nothing) and, over the synchronous transport, a call to a method of its own endpoint
+    # that is not patched (-32601, not recorded): neither changes the state the model keeps, both must come back
+    nest_on = zlib.crc32(json.dumps(scn, sort_keys=True).encode()) // 4 % 2 == 1
+    nest = []
+
+    def reenter(e):
+        try:
+            mocker.replace(ep(e), 'm1', idx=7, result='never')
+            nest.append('replaced')
+        except (IndexError, KeyError):
+            nest.append('error')
+        if kind == 'sync':
+            probe = json.dumps({'jsonrpc': '2.0', 'method': 'm3', 'id': 9})
+            try:
+                res = mocker_targets.SyncClient(e)._request(probe, False)
+            except ConnectionRefusedError:
+                nest.append('refused')      # the patch that is answering was the endpoint's last one and is used up already
+                return
+            if res == 'REAL-TRANSPORT':
+                nest.append('passed')
+                return
+            doc = json.loads(res)
+            nest.append('mnf' if (doc.get('error') or {}).get('code') == -32601 and doc.get('id') == 9 else 'other:%r' % (doc,))
 
     def patch_kwargs(op):
         if op.get('twin'):
@@ -82,12 +106,17 @@ def run(scn, kind, loop):
         elif op['kind'] == 'error':
             kw['error'] = pjrpc.exc.JsonRpcError(code=1000 + t, message='patched')
         else:
-            kw['callback'] = lambda *a, _t=t, **k: 'cb_%d' % _t
+            def cb(*a, _t=t, _e=op['e'], **k):
+                if nest_on:
+                    reenter(_e)
+                return 'cb_%d' % _t
+            kw['callback'] = cb
         return kw
 
     try:
         for op in scn['hist']:
             k, replies = 'ok', []
+            del nest[:]
             try:
                 if op['op'] == 'add':
                     mocker.add(ep(op['e']), op['m'], **patch_kwargs(op))
@@ -128,21 +157,52 @@ def run(scn, kind, loop):
                 k = 'error'
             except BaseException as e:  # noqa
                 k = 'raised:' + type(e).__name__
-            ev.append({'ev': 'Op', 'op': op, 'k': k, 'replies': replies, 'calls': a_calls(mocker)})
+            ev.append({'ev': 'Op', 'op': op, 'k': k, 'replies': replies, 'calls': a_calls(mocker), 'nest': list(nest)})
     finally:
         mocker.stop()
     s = dict(scn)
     s['kind'] = kind
+    s['nest'] = nest_on
     return {'scn': s, 'ev': ev}
+
+
+def watched(scn, kind, loop, state):
+    """a replay that does not come back (a callback waiting for a lock its own caller holds) is an observation - the event
+    Hang, which no specification allows - not a failure of the machinery; nothing is replayed in this process afterwards"""
+    import threading
+    s = dict(scn, kind=kind, nest=False)
+    if state['hung']:
+        return {'scn': s, 'ev': [{'ev': 'NotRun'}]}
+    box = []
+    err = []
+
+    def work():
+        try:
+            box.append(guarded(run)(scn, kind, loop))
+        except BaseException as e:  # noqa
+            err.append(e)
+    th = threading.Thread(target=work, daemon=True)
+    th.start()
+    th.join(60)
+    if th.is_alive():
+        state['hung'] = True
+        return {'scn': s, 'ev': [{'ev': 'Hang'}]}
+    if err:
+        raise err[0]
+    return box[0]
 
 
 if __name__ == '__main__':
     from _guard import guarded
     loop = asyncio.new_event_loop()
     out = []
+    state = {'hung': False}
     for s in json.load(open(sys.argv[1])):
-        out.append(guarded(run)(s, 'sync', loop))
-        out.append(guarded(run)(s, 'async', loop))
+        out.append(watched(s, 'sync', loop, state))
+        out.append(watched(s, 'async', loop, state))
         if not s['passthrough'] and zlib.crc32(json.dumps(s, sort_keys=True).encode()) % 4 == 0:
-            out.append(guarded(run)(s, 'httpx', loop))      # the real transport would need a network: only where nothing is passed through
+            out.append(watched(s, 'httpx', loop, state))      # the real transport would need a network: only where nothing is passed through
     json.dump(out, open(sys.argv[2], 'w'))
+    sys.stdout.flush()
+    if state['hung']:
+        os._exit(0)         # a thread is still stuck inside the library
